@@ -56,7 +56,7 @@ impl Scenario for C18 {
     fn runs(&self, tier: Tier) -> u64 {
         match tier {
             Tier::Quick => 10_000,
-            Tier::Thorough => 500_000,
+            Tier::Thorough => 5_000_000,
         }
     }
 
